@@ -86,7 +86,6 @@ HC_CONSTS = """  DownAfter = %(downafter)d
   SBM = %(sbm)d
   HealthSQL = %(healthsql)s
   HasMaster = %(hasmaster)s
-  Scope = "%(scope)s"
 """
 
 HC_MC = "SPECIFICATION HSpec\n" + FUSE_BASE + HC_CONSTS + """INVARIANTS RingIsCount HardFuseTime CountdownIsNeed FTypeOK
@@ -107,9 +106,9 @@ CHECK_DEADLOCK FALSE
 """
 
 
-def hc_params(policy, scope, **kw):
+def hc_params(policy, **kw):
     d = dict(w=2, min=2, policy=policy, cool=5 if policy == "hard" else 0, maxlevel=4, t0=100, maxtime=110, maxtick=9,
-             downafter=8, sbm=10, healthsql="TRUE", hasmaster="TRUE", scope=scope, extra="", mode="sim", len=24,
+             downafter=8, sbm=10, healthsql="TRUE", hasmaster="TRUE", extra="", mode="sim", len=24,
              fuseweight=0, syncs="McSyncs")
     d.update(kw)
     return d
